@@ -197,6 +197,25 @@ type EOp struct {
 	Filter *fileadapter.Filter
 	// NilFilter: pass an untyped nil filter
 	NilFilter bool
+	// Persist: the shouldPersist predicate of a Self call: "n" (nil), "0", "1"
+	Persist string
+}
+
+func persistFn(p string) func() bool {
+	switch p {
+	case "0":
+		return func() bool { return false }
+	case "1":
+		return func() bool { return true }
+	}
+	return nil
+}
+
+func errBit(err error) int {
+	if err != nil {
+		return 1
+	}
+	return 0
 }
 
 func filterTok(f *fileadapter.Filter, isNil bool) string {
@@ -271,6 +290,16 @@ func (o EOp) Line() string {
 		return o.Kind + " " + filterTok(o.Filter, o.NilFilter)
 	case "savefa":
 		return "savefa"
+	case "dist-add", "dist-rm":
+		return o.Kind + " " + o.Persist + " " + sp + " " + proto.EncRules(o.Rules)
+	case "dist-rmf":
+		return fmt.Sprintf("dist-rmf %s %s %d %s", o.Persist, sp, o.FI, proto.EncRule(o.Vals))
+	case "dist-clear":
+		return "dist-clear " + o.Persist
+	case "dist-upd":
+		return "dist-upd " + o.Persist + " " + sp + " " + proto.EncRule(o.Rule) + " | " + proto.EncRule(o.New)
+	case "dist-upds":
+		return "dist-upds " + o.Persist + " " + sp + " " + proto.EncRules(o.Rules) + " || " + proto.EncRules(o.News)
 	case "setrm":
 		return "setrm " + o.PType
 	case "set":
@@ -291,6 +320,7 @@ func (o EOp) Line() string {
 
 // Sess is a live enforcer under test with its recording adapter and watcher.
 type Sess struct {
+	D       *casbin.DistributedEnforcer
 	FA      *fileadapter.FilteredAdapter
 	FAPath  string
 	MS      *MSpec
@@ -501,6 +531,24 @@ func (s *Sess) Exec(o EOp) (obs string) {
 			f = 1
 		}
 		return fmt.Sprintf("%s F=%d", okErr(err), f)
+	case "dist-add":
+		aff, err := s.D.AddPoliciesSelf(persistFn(o.Persist), o.Sec, o.PType, cloneRules(o.Rules))
+		return fmt.Sprintf("A %s E %d", proto.EncRules(aff), errBit(err))
+	case "dist-rm":
+		aff, err := s.D.RemovePoliciesSelf(persistFn(o.Persist), o.Sec, o.PType, cloneRules(o.Rules))
+		return fmt.Sprintf("A %s E %d", proto.EncRules(aff), errBit(err))
+	case "dist-rmf":
+		aff, err := s.D.RemoveFilteredPolicySelf(persistFn(o.Persist), o.Sec, o.PType, o.FI, o.Vals...)
+		return fmt.Sprintf("A %s E %d", proto.EncRules(aff), errBit(err))
+	case "dist-clear":
+		err := s.D.ClearPolicySelf(persistFn(o.Persist))
+		return fmt.Sprintf("E %d", errBit(err))
+	case "dist-upd":
+		ok, err := s.D.UpdatePolicySelf(persistFn(o.Persist), o.Sec, o.PType, append([]string(nil), o.Rule...), append([]string(nil), o.New...))
+		return fmt.Sprintf("%v E %d", ok, errBit(err))
+	case "dist-upds":
+		ok, err := s.D.UpdatePoliciesSelf(persistFn(o.Persist), o.Sec, o.PType, cloneRules(o.Rules), cloneRules(o.News))
+		return fmt.Sprintf("%v E %d", ok, errBit(err))
 	case "savefa":
 		err := e.SavePolicy()
 		f := 0
